@@ -1,4 +1,5 @@
 import FlatccModel.VerifierSound4
+import FlatccModel.VerifierWF
 /-!
 # C01 — verifier acceptance implies in-bounds, aligned reads
 
@@ -38,6 +39,14 @@ theorem C01_table_root {c : Ctx} {M : Nat} (hm4 : 4 ∣ M) (hmp : M ∣ 42949672
     have := table_sound P S w 128 0 o maxLevels t (by omega) (by omega) h fuel a
     rw [Nat.zero_add] at this
     exact this ha
+
+/-- The form applied to generated code: the only hypothesis about the schema is the Boolean `wfB`, which every check run evaluates on the
+call lists extracted from the `*_verifier.h` files the current compiler generates (tools/genverifier.py). -/
+theorem C01_generated_verifier {c : Ctx} {M : Nat} (S : Schema) (hw : wfB S M = true) (idHash t : Nat)
+    (h : verifyTableAsRoot S c idHash t = .ok ()) :
+    ∀ fuel a, a ∈ rootAcc S c fuel t → Safe c a := by
+  obtain ⟨h4, hp, w⟩ := wfB_sound hw
+  exact C01_table_root h4 hp S w idHash t h
 
 /-- The size-prefixed variants: the root offset is read at 4, and every access stays inside the
 prefix-declared size (which the header check bounds by the given size). -/
